@@ -27,22 +27,29 @@ type scenario struct {
 	Name     string     `json:"name"`
 	Callers  [][]string `json:"callers"`
 	FailPull int        `json:"failPull"`
+	// Cancel: callers whose context is cancelled by a separate thread at a point the explorer
+	// chooses (before, while or after they wait). The registry pull itself does not watch the context.
+	Cancel []int `json:"cancel,omitempty"`
 }
 
 var scenarios = []scenario{
-	{"3x1-same", [][]string{{"i1"}, {"i1"}, {"i1"}}, -1},
-	{"2x2-same", [][]string{{"i1", "i1"}, {"i1", "i1"}}, -1},
-	{"3x1-two-images", [][]string{{"i1"}, {"i1"}, {"i2"}}, -1},
-	{"2x1-same-error", [][]string{{"i1"}, {"i1"}}, 0},
-	{"2+1-repeat", [][]string{{"i1", "i1"}, {"i1"}}, 1},
+	{"3x1-same", [][]string{{"i1"}, {"i1"}, {"i1"}}, -1, nil},
+	{"2x2-same", [][]string{{"i1", "i1"}, {"i1", "i1"}}, -1, nil},
+	{"3x1-two-images", [][]string{{"i1"}, {"i1"}, {"i2"}}, -1, nil},
+	{"2x1-same-error", [][]string{{"i1"}, {"i1"}}, 0, nil},
+	{"2+1-repeat", [][]string{{"i1", "i1"}, {"i1"}}, 1, nil},
+	// a caller whose reconcile is cancelled while others ask for the same image
+	{"2x1-first-cancelled", [][]string{{"i1"}, {"i1"}}, -1, []int{0}},
+	{"1+2-repeat-cancelled", [][]string{{"i1"}, {"i1", "i1"}}, -1, []int{0}},
 	// images that differ only in tag / in digest within one repository, and in registry only
-	{"3x1-same-repo-two-tags", [][]string{{"quay.io/org/pkg:v1"}, {"quay.io/org/pkg:v2"}, {"quay.io/org/pkg:v1"}}, -1},
-	{"2x2-tag-digest-registry", [][]string{{"quay.io/org/pkg:v1", "ghcr.io/org/pkg:v1"}, {"quay.io/org/pkg@sha256:" + strings.Repeat("a", 64), "quay.io/org/pkg:v1"}}, -1},
+	{"3x1-same-repo-two-tags", [][]string{{"quay.io/org/pkg:v1"}, {"quay.io/org/pkg:v2"}, {"quay.io/org/pkg:v1"}}, -1, nil},
+	{"2x2-tag-digest-registry", [][]string{{"quay.io/org/pkg:v1", "ghcr.io/org/pkg:v1"}, {"quay.io/org/pkg@sha256:" + strings.Repeat("a", 64), "quay.io/org/pkg:v1"}}, -1, nil},
 }
 
 var thoroughScenarios = []scenario{
-	{"4x1-same", [][]string{{"i1"}, {"i1"}, {"i1"}, {"i1"}}, -1},
-	{"3x2-mixed", [][]string{{"i1", "i2"}, {"i2", "i1"}, {"i1", "i1"}}, -1},
+	{"4x1-same", [][]string{{"i1"}, {"i1"}, {"i1"}, {"i1"}}, -1, nil},
+	{"3x2-mixed", [][]string{{"i1", "i2"}, {"i2", "i1"}, {"i1", "i1"}}, -1, nil},
+	{"3x1-two-cancelled", [][]string{{"i1"}, {"i1"}, {"i1"}}, -1, []int{0, 1}},
 }
 
 type pullRec struct {
@@ -58,6 +65,7 @@ type callRec struct {
 	start, end  int64
 	gotPull     int // pull id the response came from, -1 = error response
 	gotErr      string
+	gaveUp      bool
 	done        bool
 	files       packagetypes.Files
 }
@@ -108,17 +116,38 @@ func (r *run) pull(_ context.Context, image string) (*packagetypes.RawPackage, e
 	return &packagetypes.RawPackage{Files: files}, nil
 }
 
+func (r *run) cancelled(ci int) bool {
+	for _, c := range r.sc.Cancel {
+		if c == ci {
+			return true
+		}
+	}
+	return false
+}
+
 func (r *run) caller(rm *packageimport.RequestManager, ci int) {
+	cctx := context.Background()
+	if r.cancelled(ci) {
+		var cancel context.CancelFunc
+		cctx, cancel = context.WithCancel(cctx)
+		vsched.GoNamed(fmt.Sprintf("canceller%d", ci), func() {
+			vsched.Yield("before-cancel")
+			cancel()
+		})
+	}
 	for k, image := range r.sc.Callers[ci] {
 		r.mu.Lock()
 		c := &callRec{caller: ci, idx: k, image: image, start: r.tick(), gotPull: -1}
 		r.calls = append(r.calls, c)
 		r.mu.Unlock()
-		pkg, err := rm.Pull(context.Background(), image)
+		pkg, err := rm.Pull(cctx, image)
 		r.mu.Lock()
 		c.end = r.tick()
 		c.done = true
 		switch {
+		case err != nil && pkg == nil && errors.Is(err, context.Canceled) && r.cancelled(ci):
+			// the caller's own cancellation: a legitimate answer to a caller that gave up
+			c.gaveUp = true
 		case err != nil && pkg != nil:
 			r.violate("caller %d got both a package and an error", ci)
 		case err != nil:
@@ -163,6 +192,9 @@ func (r *run) finalCheck(deadlock string) {
 			if deadlock == "" {
 				r.violate("caller %d call %d never returned", c.caller, c.idx)
 			}
+			continue
+		}
+		if c.gaveUp {
 			continue
 		}
 		if c.gotPull < 0 || c.gotPull >= len(r.pulls) {
@@ -350,8 +382,8 @@ func runSched(o checks.Opts) *report.Report {
 // many successors), so the depth-first enumeration is cut after a fixed number of executions and
 // reported as capped.
 var wideScenarios = []scenario{
-	{"6x1-distinct", [][]string{{"d1"}, {"d2"}, {"d3"}, {"d4"}, {"d5"}, {"d6"}}, -1},
-	{"9x1-distinct", [][]string{{"d1"}, {"d2"}, {"d3"}, {"d4"}, {"d5"}, {"d6"}, {"d7"}, {"d8"}, {"d9"}}, -1},
+	{"6x1-distinct", [][]string{{"d1"}, {"d2"}, {"d3"}, {"d4"}, {"d5"}, {"d6"}}, -1, nil},
+	{"9x1-distinct", [][]string{{"d1"}, {"d2"}, {"d3"}, {"d4"}, {"d5"}, {"d6"}, {"d7"}, {"d8"}, {"d9"}}, -1, nil},
 }
 
 func runWide(o checks.Opts) *report.Report {
